@@ -3,7 +3,7 @@
    /repo/glue/utils/array.py on every run (coq/gen/Gen_array.v). *)
 From Coq Require Import ZArith List Bool Sorting.Sorted.
 Import ListNotations.
-From GV Require Import Common.PyInt gen.Gen_array C20.Model C20.Lemmas C20.Lemmas2 C20.OdometerProof C20.Final.
+From GV Require Import Common.PyInt gen.Gen_array C20.Model C20.Lemmas C20.Lemmas2 C20.OdometerProof C20.Final C20.CombineProof.
 Open Scope Z_scope.
 
 (* no chunk larger than the requested limit; chunk shape fits the array shape (translated code) *)
@@ -102,3 +102,20 @@ Theorem unbroadcast_roundtrip : forall (shape : list Z) (flags : list bool) (f :
   broadcast_back shape flags (map f (all_indices (unbroadcast_shape shape flags))) = map f (all_indices shape).
 Proof. exact Lemmas2.unbroadcast_roundtrip. Qed.
 Print Assumptions unbroadcast_roundtrip.
+
+(* C20, second sentence, on the translated combine_slices: applying the combined slice to the view selected by
+   slice1 yields exactly those elements of the view that slice2 also selects, in order -- i.e. the combined slice
+   lists precisely the positions, within the view, of the elements chosen by both. *)
+Theorem combine_slices_exact : forall (s1 s2 : slice) (n : Z),
+  0 <= n -> pos_step s1 -> pos_step s2 ->
+  exists a b c, combine_slices s1 s2 n = Ok (a, b, c) /\
+    map (znth (slice_elems s1 n)) (slice_elems (mk_slice3 (a, b, c)) (zlen (slice_elems s1 n)))
+    = filter (fun x => existsb (Z.eqb x) (slice_elems s2 n)) (slice_elems s1 n).
+Proof. exact CombineProof.combine_slices_exact. Qed.
+Print Assumptions combine_slices_exact.
+
+Theorem combine_slices_negative : forall (s1 s2 : slice) (n : Z),
+  (exists k, sl_step s1 = Some k /\ k < 0) \/ (exists k, sl_step s2 = Some k /\ k < 0) ->
+  combine_slices s1 s2 n = Err ValueError.
+Proof. exact CombineProof.combine_slices_negative. Qed.
+Print Assumptions combine_slices_negative.
